@@ -534,7 +534,7 @@ def rnd_dict(rng, depth, nkeys):
 def rnd_case(desc):
     """everything about a random execution is derived from (seed, n, size)"""
     rng = random.Random(desc['seed'] * 1000003 + desc['n'] * 7 + {'empty': 0, 'tiny': 1, 'medium': 2,
-                                                                   'big': 3, 'aligned': 4}[desc['size']])
+                                                                   'big': 3, 'aligned': 4, 'many': 5}[desc['size']])
     size = desc['size']
     codec = rng.choice(['none', 'gzip', 'zstd'])
     encoding = 'utf-8'
@@ -561,6 +561,11 @@ def rnd_case(desc):
         def plan_none(data, lines_b):
             return None
         return objs, codec, encoding, 'path', rng.choice(['path', 'fileobj']), plan_none, tagged
+    if size == 'many':
+        # thousands of small objects (counts around 1000, 2000 ...), in every encoding
+        encoding = ['utf-16', 'utf-32', 'utf-8', 'utf-16'][desc['n'] % 4]
+        for _ in range(rng.choice([999, 1000, 1001, 1500, 2001, 2600])):
+            objs.append(rnd_dict(rng, rng.choice([0, 1]), rng.choice([0, 1, 2])))
     if size == 'tiny':
         for _ in range(rng.choice([1, 1, 2, 3, 5])):
             objs.append(rnd_dict(rng, rng.choice([0, 1, 3]), rng.choice([0, 0, 1, 2, 3])))
@@ -762,8 +767,8 @@ def main(tier, replay):
                               'load_how': 'open_obj' if i % 5 == 4 else 'fileobj',
                               'dump_how': {0: 'open_obj', 1: 'path'}.get(i % 11, 'fileobj')})
     n_beh = len(cases)
-    sizes = (['empty'] * 6 + ['tiny'] * 60 + ['medium'] * 40 + ['big'] * 14 + ['aligned'] * 8) if not thorough else \
-            (['empty'] * 12 + ['tiny'] * 400 + ['medium'] * 300 + ['big'] * 160 + ['aligned'] * 48)
+    sizes = (['empty'] * 6 + ['tiny'] * 60 + ['medium'] * 40 + ['big'] * 14 + ['aligned'] * 8 + ['many'] * 4) if not thorough else \
+            (['empty'] * 12 + ['tiny'] * 400 + ['medium'] * 300 + ['big'] * 160 + ['aligned'] * 48 + ['many'] * 16)
     for n, size in enumerate(sizes):
         cases.append({'kind': 'rnd', 'seed': seed, 'n': n, 'size': size})
     traces, infos = [], []
